@@ -23,7 +23,7 @@ Print Assumptions C13_generated_reframe_constants.
 (* every body frame sent to a receiver fits the frame-max it negotiated, whatever frames the publisher sent *)
 Theorem C13_body_frames_within_receivers_frame_max :
   forall fmax stored, 8 < fmax -> Forall (fun n => wire_size n <= fmax) (reframe fmax stored).
-Proof. intros fmax stored H. exact (reframe_within_frame_max fmax stored H eq_refl eq_refl). Qed.
+Proof. exact reframe_within_frame_max_gen. Qed.
 Print Assumptions C13_body_frames_within_receivers_frame_max.
 
 (* ... and together they carry exactly the stored bytes: the announced body-size is still met *)
@@ -36,7 +36,7 @@ Theorem C13_cut_keeps_bytes_in_order :
   forall (fuel maxp : nat) (body : list N),
     concat (cut_bytes fuel maxp body) = body /\
     map (fun p => N.of_nat (length p)) (cut_bytes fuel maxp body) = recut_loop fuel (N.of_nat maxp) (N.of_nat (length body)).
-Proof. intros fuel maxp body. split; [exact (cut_bytes_concat fuel maxp body) | exact (cut_bytes_lengths fuel maxp body)]. Qed.
+Proof. exact cut_bytes_spec. Qed.
 Print Assumptions C13_cut_keeps_bytes_in_order.
 
 (* no empty body frame is made out of non-empty ones *)
@@ -55,10 +55,7 @@ Print Assumptions C13_reframe_is_identity_when_it_fits.
 (* the fuel of `recut` is never what ends the loop *)
 Theorem C13_recut_fuel_is_enough :
   forall maxp len f2, 0 < maxp -> (N.to_nat (len / maxp) <= f2)%nat -> recut_loop f2 maxp len = recut maxp len.
-Proof.
-  intros maxp len f2 Hp Hf. unfold recut. assert (E : (0 <? maxp) = true) by (apply N.ltb_lt; exact Hp). rewrite E.
-  exact (recut_loop_more_fuel _ f2 maxp len Hp (recut_fuel_enough maxp len Hp) Hf).
-Qed.
+Proof. exact recut_fuel_is_enough. Qed.
 Print Assumptions C13_recut_fuel_is_enough.
 
 (* non-vacuity: the session the check replays on the real broker *)
